@@ -425,5 +425,52 @@ Proof.
     destruct (sml_adds c (l ++ [e]) r). exact IH.
 Qed.
 
+
 Lemma wf_list_nil : forall c, wf_list c [].
 Proof. intro c. split; [intros x [] | intros x y a b []]. Qed.
+
+(* ---- extend / += / value setter ------------------------------------------------------------------ *)
+Definition sml_errno (x : err) : Prop :=
+  x = EAASd 120 \/ x = EAASd 108 \/ x = EAASd 107 \/ x = EAASd 109 \/ x = EAASd 114.
+
+Lemma check_new_errno : forall c e l x, wf_list c l -> check_new c e l = Some x -> sml_errno x.
+Proof.
+  intros c e l x Hwf H. unfold sml_errno.
+  destruct (check_new_reject c e l x Hwf H) as [(-> & _)|(_ & _ & [(-> & _)|[(-> & _)|[(-> & _)|(-> & _)]]])]; tauto.
+Qed.
+
+Lemma sml_extend_raw_spec : forall c es l, wf_list c l ->
+  match sml_extend_raw c l es with
+  | inl l' => wf_list c l'
+  | inr x => sml_errno x
+  end.
+Proof.
+  intros c es. induction es as [|e r IH]; intros l Hwf; cbn [sml_extend_raw]; [exact Hwf|].
+  destruct (check_new c e l) eqn:E.
+  - eapply check_new_errno; eassumption.
+  - apply IH. destruct (check_new_accept c e l Hwf E) as (_ & Hins).
+    exact (Hins l [] (eq_sym (app_nil_r l))).
+Qed.
+
+Theorem sml_step_spec : forall c l p l' r, wf_list c l -> sml_step c l p = (l', r) ->
+  match r with
+  | None => wf_list c l'
+  | Some x => l' = l /\ sml_errno x
+  end.
+Proof.
+  intros c l p l' r Hwf H. destruct p as [e|es|es]; cbn [sml_step] in H.
+  - destruct (check_new c e l) eqn:E; inversion H; subst.
+    + split; [reflexivity | eapply check_new_errno; eassumption].
+    + destruct (check_new_accept c e l Hwf E) as (_ & Hins). exact (Hins l [] (eq_sym (app_nil_r l))).
+  - pose proof (sml_extend_raw_spec c es l Hwf) as S. destruct (sml_extend_raw c l es); inversion H; subst; auto.
+  - pose proof (sml_extend_raw_spec c es [] (wf_list_nil c)) as S.
+    destruct (sml_extend_raw c [] es); inversion H; subst; auto.
+Qed.
+
+Theorem sml_run_wf : forall c ops l, wf_list c l -> wf_list c (fst (sml_run c l ops)).
+Proof.
+  intros c ops. induction ops as [|p r IH]; intros l Hwf; [exact Hwf|]. cbn [sml_run].
+  destruct (sml_step c l p) as [l1 o] eqn:E. pose proof (sml_step_spec c l p l1 o Hwf E) as S.
+  assert (Hw1 : wf_list c l1) by (destruct o; [destruct S as (-> & _); exact Hwf | exact S]).
+  specialize (IH l1 Hw1). destruct (sml_run c l1 r). exact IH.
+Qed.
